@@ -12,6 +12,7 @@ B: TLC emits the exact rational argument every frequency bin feeds to the leaf f
 import itertools
 import math
 import random
+import warnings
 from fractions import Fraction as Fr
 
 import numpy as np
@@ -155,6 +156,38 @@ def run(ctx):
         if not np.allclose(lentil.smear(img, dist, angle=angle, pixelscale=px, oversample=os_),
                            lentil.smear(img, dist / px * os_, angle=angle, pixelscale=1, oversample=1), rtol=0, atol=1e-12):
             ctx.violation({'blur': 'smear', 'kind': 'units-not-equivalent', 'square': R == C}, {'shape': [R, C]}, case=None)
+        # 5b. the same numbers held in narrower types (a pixel size and an extent read from a single-precision header; every value
+        #     used here is dyadic, hence exact in half precision): still the same extent in samples
+        pxn = rng.choice((3.0, 1.5, 0.75, 5.5))        # exact in half precision, the QUOTIENT extent / pixel scale is not
+        for T in (np.float32, np.float16):
+            for wrap in (lambda v: v, np.asarray):
+                for name, ext in (('jitter', scale), ('smear', dist)):
+                    kw = {} if name == 'jitter' else {'angle': angle}
+                    fn = getattr(lentil, name)
+                    ref = fn(img, ext / pxn * os_, pixelscale=1, oversample=1, **kw)
+                    try:
+                        got = fn(img, wrap(T(ext)), pixelscale=wrap(T(pxn)), oversample=wrap(np.uint8(os_)), **kw)
+                    except Exception as ex:
+                        ctx.violation({'blur': name, 'kind': 'narrow-extent-refused', 'type': T.__name__}, {'shape': [R, C], 'error': repr(ex)[:200]}, case=None)
+                        continue
+                    if not np.allclose(got, ref, rtol=0, atol=1e-11 * (1 + np.abs(ref).max())):
+                        ctx.violation({'blur': name, 'kind': 'units-not-equivalent-narrow-types', 'type': T.__name__},
+                                      {'shape': [R, C], 'extent': ext, 'pixelscale': pxn, 'oversample': os_,
+                                       'largest_difference': float(np.abs(got - ref).max())}, case=None)
+        # 6. pixelate = pixel, then resampling to native pixels that keeps the total (anchor "pixelate = pixel then rescale(1/oversample)"):
+        #    ceil(n / oversample) samples, finite, the total of the pixel blur; a frame without signal stays a frame without signal
+        for frame in (img, np.zeros((R, C))):
+            with warnings.catch_warnings():
+                warnings.simplefilter('ignore')
+                po = lentil.detector.pixelate(frame, os_)
+                pb = lentil.detector.pixel(frame, os_)
+            sigp = {'blur': 'pixelate', 'frame': 'random' if frame is img else 'zeros'}
+            if po.shape != (-(-R // os_), -(-C // os_)):
+                ctx.violation(dict(sigp, kind='shape'), {'shape': [R, C], 'oversample': os_, 'observed': list(po.shape)}, case=None)
+            elif not np.all(np.isfinite(po)):
+                ctx.violation(dict(sigp, kind='not-finite'), {'shape': [R, C], 'oversample': os_}, case=None)
+            elif abs(po.sum() - pb.sum()) > 1e-10 * (1 + pb.sum()):
+                ctx.violation(dict(sigp, kind='total-not-kept'), {'shape': [R, C], 'oversample': os_, 'expected': float(pb.sum()), 'observed': float(po.sum())}, case=None)
     ctx.traces += len(cases)
     ctx.sample({'case': cases[0], 'jitter_arguments_by_TLC_first_row': exp[0]['jitter'][0], 'nyquist_bins': exp[0]['nyq'][0]}, maxn=1)
     ctx.rule = ('image shapes in {5,6,7,8}^2 (9 seeded [all 16]) x 2 [6] parameter draws (oversample 1..3, extents in halves of a sample, pixel '
